@@ -128,6 +128,26 @@ pub fn run_c10(ctx: &mut Ctx, replay: Option<&[String]>) {
 
 /// The EXPECTED table of C18, written from the documentation of `DecoderImplementation`
 /// (independently of factory.rs): name -> generic decoder over the named arithmetic and schedule.
+/// The directly constructed generic decoders, driven through their INHERENT `decode` methods: the trait-object bridge
+/// `impl LdpcDecoder for Decoder<A>` belongs to what `DecoderImplementation::build_decoder` hands out and is therefore under test, not
+/// part of the reference.
+#[derive(Debug)]
+struct DirectFlooding<A: DecoderArithmetic>(flooding::Decoder<A>);
+#[derive(Debug)]
+struct DirectLayered<A: DecoderArithmetic>(horizontal_layered::Decoder<A>);
+impl<A: DecoderArithmetic + std::fmt::Debug + Send> LdpcDecoder for DirectFlooding<A>
+where A::Llr: std::fmt::Debug + Send, A::CheckMessage: std::fmt::Debug + Send, A::VarMessage: std::fmt::Debug + Send, A::VarLlr: std::fmt::Debug + Send {
+    fn decode(&mut self, llrs: &[f64], max_iterations: usize) -> Result<ldpc_toolbox::decoder::DecoderOutput, ldpc_toolbox::decoder::DecoderOutput> {
+        flooding::Decoder::<A>::decode(&mut self.0, llrs, max_iterations)
+    }
+}
+impl<A: DecoderArithmetic + std::fmt::Debug + Send> LdpcDecoder for DirectLayered<A>
+where A::Llr: std::fmt::Debug + Send, A::CheckMessage: std::fmt::Debug + Send, A::VarMessage: std::fmt::Debug + Send, A::VarLlr: std::fmt::Debug + Send {
+    fn decode(&mut self, llrs: &[f64], max_iterations: usize) -> Result<ldpc_toolbox::decoder::DecoderOutput, ldpc_toolbox::decoder::DecoderOutput> {
+        horizontal_layered::Decoder::<A>::decode(&mut self.0, llrs, max_iterations)
+    }
+}
+
 macro_rules! expected_table {
     ($name:expr, $h:expr; $($fam:ident),+) => {{
         let name: &str = $name;
@@ -136,9 +156,9 @@ macro_rules! expected_table {
         $(
             if base == stringify!($fam) {
                 out = Some(if hl {
-                    Box::new(horizontal_layered::Decoder::new($h, <$fam>::new()))
+                    Box::new(DirectLayered(horizontal_layered::Decoder::new($h, <$fam>::new())))
                 } else {
-                    Box::new(flooding::Decoder::new($h, <$fam>::new()))
+                    Box::new(DirectFlooding(flooding::Decoder::new($h, <$fam>::new())))
                 });
             }
         )+
@@ -208,6 +228,27 @@ pub fn run_c18(ctx: &mut Ctx, _replay: Option<&[String]>) {
             let (h, fam) = gen_matrix(&mut rng, 30);
             let mut tags = vec![fam, "behaviour-random"];
             let calls = gen_calls(&mut rng, &h, 2, &mut tags);
+            let mut d = imp.build_decoder(h.clone());
+            let built = run_history(&mut d, &calls);
+            let direct = match expected_decoder(&name, h.clone()) {
+                Some(mut e) => run_history(&mut e, &calls),
+                None => vec!["no-expected-decoder".to_string()],
+            };
+            ctx.emit(&format!("c18 beh {} {} {}", name, sm(&h), calls_str(&calls)),
+                &format!("{} | {}", built.join(" "), direct.join(" ")), true, &tags);
+        }
+        // "behaves exactly like" has no restriction on the input: LLR vectors with NaN / +-inf entries (results or panics must coincide)
+        for _ in 0..ctx.scale(6, 300) {
+            let (h, fam) = gen_matrix(&mut rng, 20);
+            let mut tags = vec![fam, "behaviour-non-finite-llrs"];
+            let mut calls = gen_calls(&mut rng, &h, 2, &mut tags);
+            for c in calls.iter_mut() {
+                if c.1.is_empty() { continue; }
+                for _ in 0..rng.range(1, 3) {
+                    let i = rng.below(c.1.len());
+                    c.1[i] = *rng.pick(&[f64::NAN, -f64::NAN, f64::INFINITY, f64::NEG_INFINITY, f64::NAN]);
+                }
+            }
             let mut d = imp.build_decoder(h.clone());
             let built = run_history(&mut d, &calls);
             let direct = match expected_decoder(&name, h.clone()) {
